@@ -8,14 +8,22 @@ def idx? (n : Nat) (t : Term) : Option Nat := do
   let i ← asNat? t
   if i < n then some i else none
 
-def opOf? (srcs : List Source) (npfx naset npol : Nat) (pre : Bool) : Term → Option Op
+/-- is the prefix (as the model holds it: prefix, slot = 2 * shard + family) an IPv6 one? -/
+def isV6 (p : Net × Nat) : Bool := p.2 % 2 = 1
+
+def opOf? (srcs : List Source) (pfxs : List (Net × Nat)) (naset npol : Nat) (pre : Bool) : Term → Option Op
   | .list [.atom "ann", s, p, rpid, a, nh] => do
       let nsrc := srcs.length
+      let npfx := pfxs.length
       let nh ← nhOf? nh
-      match nh with
-      | .v4 _ => pure (.ann (← idx? nsrc s) (← idx? npfx p) (← nat32? rpid) (← idx? naset a) nh)
-      | _ => none
-  | .list [.atom "wd", s, p, rpid] => do let nsrc := srcs.length; pure (.wd (← idx? nsrc s) (← idx? npfx p) (← nat32? rpid))
+      let p ← idx? npfx p
+      let six := match pfxs[p]? with | some x => isV6 x | none => false
+      -- the next hop is of the prefix's family
+      match nh, six with
+      | .v4 _, false => pure (.ann (← idx? nsrc s) p (← nat32? rpid) (← idx? naset a) nh)
+      | .v6 _, true => pure (.ann (← idx? nsrc s) p (← nat32? rpid) (← idx? naset a) nh)
+      | _, _ => none
+  | .list [.atom "wd", s, p, rpid] => do let nsrc := srcs.length; pure (.wd (← idx? nsrc s) (← idx? pfxs.length p) (← nat32? rpid))
   | .list [.atom "down", s] => do pure (.down (← idx? srcs.length s))
   | .list [.atom "llgr", s] => do
       if pre then none
@@ -31,25 +39,62 @@ def opOf? (srcs : List Source) (npfx naset npol : Nat) (pre : Bool) : Term → O
       match k with
       | .atom "none" => some (.reset none)
       | k => (idx? npol k).map (fun i => .reset (some i))
+  | .list [.atom "greset", k] =>
+      if pre then none else
+      match k with
+      | .atom "none" => some (.greset none)
+      | k => (idx? npol k).map (fun i => .greset (some i))
   | .list [.atom "deliver", n] => if pre then none else (asNat? n).map .deliver
   | .atom "flush" => if pre then none else some .flush
   | _ => none
 
+/-- `(addr len shard)` an IPv4 prefix, `(6 addr len shard)` an IPv6 one (addresses from 2^32 up, so
+    that the two families do not meet as numbers).  Every shard has one RIB per family with its own
+    id allocator: the model keeps them as two shards, slot `2 * shard + family`. -/
 def pfxOf? (k : Nat) : Term → Option (Net × Nat)
   | .list [a, l, s] => do
       let a ← nat32? a
       let l ← asNat? l
       let s ← asNat? s
-      if l ≤ 32 ∧ s < k ∧ a % 2 ^ (32 - l) = 0 then some ((a, l), s) else none
+      if l ≤ 32 ∧ s < k ∧ a % 2 ^ (32 - l) = 0 then some ((a, l), 2 * s) else none
+  | .list [.atom "6", a, l, s] => do
+      let a ← asNat? a
+      let l ← asNat? l
+      let s ← asNat? s
+      if a < U128 ∧ U32 ≤ a ∧ l ≤ 128 ∧ s < k ∧ a % 2 ^ (128 - l) = 0 then some ((a, l), 2 * s + 1) else none
   | _ => none
 
-def caseOf? : Term → Option Case01
-  | .list [.atom "c01", .list [.atom "shards", k], ctx, sess, .list [.atom "pol0", pol], .list [.atom "imp", imp],
+def polNoNh : Option Policy → Bool
+  | some p => p.nh.isNone
+  | none => true
+
+/-- a second observing neighbour on the same fan-out: its own session parameters and own export
+    policy assignment; the global policy, the RIB operations, deliveries and flushes are shared, the
+    first neighbour's own `(reset k)` does not concern it -/
+def secondOf? (c : Case01) (dual : Bool) : Term → Option (Option Case01)
+  | .atom "none" => some none
+  | .list [ctx, sess, .list [.atom "pol0", pol]] => do
+      let s ← sessOf? ctx pol sess
+      let ppol := s.policy
+      let s : Sess := { s with policy := ppol.or c.gpol0 }
+      if s.fam ≠ .ipv4 ∨ s.remoteAddr = c.sess.remoteAddr then none else
+      if dual && !((s.ctx.role = .ibgp ∨ s.ctx.role = .rrClient ∨ s.ctx.role = .rsClient) && polNoNh ppol) then none else
+      pure (some { c with sess := s, ppol0 := ppol,
+                          ops := c.ops.filter (fun op => match op with | .reset _ => false | _ => true) })
+  | _ => none
+
+/-- the case as seen by the first observing neighbour, and by the second one if there is one -/
+def casesOf? : Term → Option (Case01 × Option Case01)
+  | .list [.atom "c01", .list [.atom "shards", k], ctx, sess, .list [.atom "pol0", pol], .list [.atom "gpol0", gpol],
+           .list [.atom "imp", imp], .list [.atom "nbr2", nbr2],
            .list (.atom "srcs" :: srcs), .list (.atom "pfxs" :: pfxs), .list (.atom "asets" :: asets),
            .list (.atom "pols" :: pols), .list (.atom "pre" :: pre), .list (.atom "ops" :: ops)] => do
       let k ← asNat? k
       if k = 0 ∨ k > 4 then none else
       let s ← sessOf? ctx pol sess
+      let gpol ← policyOf? gpol
+      let ppol := s.policy
+      let s : Sess := { s with policy := ppol.or gpol }
       if s.fam ≠ .ipv4 then none else
       let srcs ← srcs.mapM sourceOf?
       let pfxs ← pfxs.mapM (pfxOf? k)
@@ -60,10 +105,19 @@ def caseOf? : Term → Option Case01
         | .atom "none" => some none
         | .list [.atom "origin", v] => do let v ← asNat? v; if v < 256 then some (some v) else none
         | _ => none
-      let pre ← pre.mapM (opOf? srcs pfxs.length asets.length pols.length true)
-      let ops ← ops.mapM (opOf? srcs pfxs.length asets.length pols.length false)
-      pure ⟨k, s, srcs, pfxs, asets, pols, imp, pre, ops⟩
+      -- IPv6 prefixes only towards receivers whose next hop is left alone (the session has one
+      -- local address) and with policies that do not set one
+      let dual := pfxs.any isV6
+      if dual && !((s.ctx.role = .ibgp ∨ s.ctx.role = .rrClient ∨ s.ctx.role = .rsClient) &&
+                   polNoNh ppol && polNoNh gpol && pols.all polNoNh) then none else
+      let pre ← pre.mapM (opOf? srcs pfxs asets.length pols.length true)
+      let ops ← ops.mapM (opOf? srcs pfxs asets.length pols.length false)
+      let c : Case01 := ⟨2 * k, s, ppol, gpol, srcs, pfxs, asets, pols, imp, pre, ops⟩
+      let c2 ← secondOf? c dual nbr2
+      pure (c, c2)
   | _ => none
+
+def caseOf? (t : Term) : Option Case01 := (casesOf? t).map (·.1)
 
 def routeLt (a b : Route) : Bool :=
   a.net.1 < b.net.1 || (a.net.1 = b.net.1 && (a.net.2 < b.net.2 || (a.net.2 = b.net.2 && a.pid < b.pid)))
@@ -91,13 +145,31 @@ def mirrorOf? (tagName : String) : Term → Option Mirror
   | .list (.atom t :: rs) => if t = tagName then rs.mapM routeOf? else none
   | _ => none
 
+def quietT (q : Quiet) : Term :=
+  tag "q" [nat q.nth, nat q.reuse, nat q.overtaken, mirrorT "m" q.mirror, mirrorT "d" q.dump]
+def quietOf? : Term → Option Quiet
+  | .list [.atom "q", n, r, ov, m, d] => do
+      pure ⟨(← asNat? n), (← asNat? r), (← asNat? ov), (← mirrorOf? "m" m), (← mirrorOf? "d" d)⟩
+  | _ => none
+
 def obsT (o : Obs01) : Term :=
   tag "obs" [tag "reuse" [nat o.reuse], tag "overtaken" [nat o.overtaken], list (sym "flushes" :: o.flushes.map (mirrorT "m")),
-             mirrorT "final" o.final, mirrorT "dump" o.dump]
+             list (sym "quiet" :: o.quiet.map quietT), mirrorT "final" o.final, mirrorT "dump" o.dump]
 
 def obsOf? : Term → Option Obs01
-  | .list [.atom "obs", .list [.atom "reuse", n], .list [.atom "overtaken", ov], .list (.atom "flushes" :: fs), fin, dump] => do
-      pure ⟨(← asNat? n), (← asNat? ov), (← fs.mapM (mirrorOf? "m")), (← mirrorOf? "final" fin), (← mirrorOf? "dump" dump)⟩
+  | .list [.atom "obs", .list [.atom "reuse", n], .list [.atom "overtaken", ov], .list (.atom "flushes" :: fs),
+           .list (.atom "quiet" :: qs), fin, dump] => do
+      pure ⟨(← asNat? n), (← asNat? ov), (← fs.mapM (mirrorOf? "m")), (← qs.mapM quietOf?), (← mirrorOf? "final" fin),
+            (← mirrorOf? "dump" dump)⟩
   | _ => none
+
+/-- observation of a case with two observing neighbours -/
+def pairT (a : Obs01) (b : Option Obs01) : Term :=
+  match b with
+  | none => obsT a
+  | some b => tag "pair" [obsT a, obsT b]
+def pairOf? : Term → Option (Obs01 × Option Obs01)
+  | .list [.atom "pair", a, b] => do pure ((← obsOf? a), some (← obsOf? b))
+  | t => (obsOf? t).map (fun a => (a, none))
 
 end Rbgp.Export.Codec01
